@@ -404,6 +404,11 @@ class Tokenizer:
         tokens.pop()  # remove final extra space
 
 
+# Non-ASCII characters that re.IGNORECASE treats as equal to an ASCII letter,
+# but that str.lower() doesn't map to that letter
+IGNORECASE_EQUIVALENTS = str.maketrans({"ſ": "s", "ı": "i", "İ": "i"})
+
+
 @dataclass
 class AhocorasickTokenizer(Tokenizer):
     """A performance-optimized Tokenizer using the
@@ -447,7 +452,7 @@ class AhocorasickTokenizer(Tokenizer):
                 unique_extractors.update(extractors)
         if len(self.case_insensitive_filter):
             for _, extractors in self.case_insensitive_filter.iter(
-                text.lower()
+                text.translate(IGNORECASE_EQUIVALENTS).lower()
             ):
                 unique_extractors.update(extractors)
         # Matches of different extractors can tie, and ties are resolved by
